@@ -561,4 +561,12 @@ def rule_f(prog, rep):
         rep.violation('C02.f', 'try_update:bound', f.loc, 'no bound on the retry counter', key='C02.f/try_update/bound')
 
 
-RULES = [('C02.a', rule_a), ('C02.b', rule_b), ('C02.c', rule_c), ('C02.d', rule_d), ('C02.e', rule_e), ('C02.f', rule_f)]
+def rule_g(prog, rep):
+    rep.rule('C02.g', 'T7', 'the compare-and-swap decision is the store\'s, on the request\'s own operands: Worterbuch::cset passes '
+             'value, version and force to Store::insert_cas exactly as it received them (Worterbuch::set likewise to insert_plain); '
+             'a core that forces or rewrites the version for some caller lets two writers win one version')
+    from .corefx import core_write_operands
+    core_write_operands(prog, rep, 'C02.g')
+
+
+RULES = [('C02.g', rule_g), ('C02.a', rule_a), ('C02.b', rule_b), ('C02.c', rule_c), ('C02.d', rule_d), ('C02.e', rule_e), ('C02.f', rule_f)]
